@@ -263,6 +263,33 @@ def build(tier="quick", seed=0):
         pack.add(Obligation(name, lambda tier, name=name, opts=opts: prove_paths(name, th_writers(opts), judge_writers, lambda m_, p: {}, allow_raise=("UnicodeEncodeError", "error")), replay=lambda w, opts=opts: {"call": "c16_writers", "args": {"opts": opts}}, functions=FU,
                             mode="five writers / modes, decoded from what each wrote (stdout modelled for the modes)"))
 
+    # ------------------------------------------------------------------ every output mode hands the projection options to its writer
+    def _spy(*a, **k):  # placeholder that stands for flow.record.RecordWriter inside rdump (modelled below)
+        raise RuntimeError("model placeholder")
+
+    def th_writer_uri(mode, extra):
+        def th():
+            from urllib.parse import parse_qsl, urlparse
+
+            fresh()
+            paths, intact = make_sources(["A"])
+            seen = []
+            orig = rd_mod.g["RecordWriter"]
+            it.models[_spy] = lambda it_, uri, *a, **k: (seen.append(uri), it_.call(orig, [uri] + list(a), k))[1]
+            rd_mod.g["RecordWriter"] = _spy
+            try:
+                run_main(["-m", mode] + list(extra) + paths)
+            finally:
+                rd_mod.g["RecordWriter"] = orig
+            return [dict(parse_qsl(urlparse(it.unbase(u)).query)) for u in seen]
+        return th
+
+    for mode in ("csv", "line", "line-verbose"):  # (the writers that render a selection of fields themselves; the JSON writer prints the projected record as it is)
+        for extra, want in ((["-F", "n,s"], {"fields": "n,s"}), (["-X", "ts,ts2"], {"exclude": "ts,ts2"}), (["-F", "n", "-X", "s"], {"fields": "n", "exclude": "s"})):
+            name = f"C16.writer_options[-m {mode} {' '.join(extra)}]"
+            pack.add(Obligation(name, lambda tier, name=name, mode=mode, extra=extra, want=want: prove_paths(name, th_writer_uri(mode, extra), lambda p, want=want: (len(p.value) == 1 and all(p.value[0].get(k_) == v for k_, v in want.items()), f"the writer of this mode is opened with the options {p.value}, the command line asks for {want}"), lambda m_, p: {}, allow_raise=("UnicodeEncodeError", "error")),
+                                replay=lambda w, mode=mode, extra=extra, want=want: {"call": "c16_writer_options", "args": {"mode": mode, "extra": extra, "want": want}}, functions=FU[:1], mode="every output mode x three projection option sets; the URI handed to RecordWriter is observed"))
+
     # ------------------------------------------------------------------ --split: parts hold at most COUNT records and together are the output, also beyond 10**suffix-length parts
     def th_split(count, suffix_length, nrec):
         def th():
